@@ -536,6 +536,17 @@ static int _GD_IncludeAffix(DIRFILE* D, const char *funcname, const char* file,
   D->fragment[fragment_index].modified = 1;
   D->flags &= ~GD_HAVE_VERSION;
 
+  /* The new fields invalidate the cached field lists */
+  {
+    unsigned int u;
+    for (u = 0; u < D->n_entries; ++u) {
+      D->entry[u]->e->fl.value_list_validity = 0;
+      D->entry[u]->e->fl.entry_list_validity = 0;
+    }
+    D->fl.value_list_validity = 0;
+    D->fl.entry_list_validity = 0;
+  }
+
   /* If ref_name is non-NULL, the included fragment contained a REFERENCE
    * directive.  If ref_name is NULL but D->fragment[new_fragment].ref_name is
    * non-NULL, no REFERENCE directive was present, but the parser found a RAW
